@@ -48,6 +48,16 @@ Section WithBucket.
     replace (length (senc m sh s c ++ rest) - length rest)%nat with (length (senc m sh s c)) by (rewrite app_length; lia).
     reflexivity.
   Qed.
+  (* the converse of denote_sound (round 6): denote is EXACTLY the set of readings the structural decoder and the rows give -- every row of
+     the head's bucket that passes its head and tail constraints and whose operand map is defined contributes its reading *)
+  Theorem denote_complete : forall m bs h rest r s r2 ops0,
+    sdec_head m bs = Some (h, rest) -> In r (bucket (rh_opc h)) -> head_ok m r h = true ->
+    sdec_tail m h (shape_of_row m r h) rest = Some (s, r2) -> tail_ok m r s = true -> mk_operands m r s (r_ops r) = Some ops0 ->
+    In (r_id r, rel_from_start (r_ops r) ops0 (Z.of_nat (length bs - length r2)), deco_of r s, (length bs - length r2)%nat) (denote bucket m bs).
+  Proof.
+    intros m bs h rest r s r2 ops0 Eh Hr E1 E2 E3 E4. unfold denote. rewrite Eh. apply in_flat_map. exists r. split; [exact Hr|].
+    unfold try_row. rewrite E1, E2, E3, E4. left. reflexivity.
+  Qed.
 End WithBucket.
 
 Section WithDb.
@@ -134,6 +144,68 @@ Section WithDb.
     destruct cands as [|c0 cs]; [cbn; split; reflexivity|].
     destruct (filter flt (c0 :: cs)) as [|g gs]; [cbn; split; discriminate|].
     destruct (existsb _ (g :: gs)); cbn; split; discriminate.
+  Qed.
+
+  (* the judge's test of one reading, as a definition (it is the filter of `judge`) *)
+  Definition good_reading (m : mode) (name : Z) (ops : list operand) (dc : deco) (c : Z * list operand * deco * nat) : bool :=
+    match c with
+    | (rid, dops, dd, len) =>
+        match row_of rid with
+        | Some r =>
+            (r_name r =? name) && deco_match dc dd &&
+            (ops_match m (r_ops r) (op_bits (r_ops r)) ops dops ||
+             ops_match m (explicit_specs (r_ops r)) (op_bits (r_ops r)) ops (explicit_only (r_ops r) dops))
+        | None => false
+        end
+    end.
+  Definition reading_len (c : Z * list operand * deco * nat) : nat := match c with (_, _, _, len) => len end.
+
+  (* the four verdicts, each characterised exactly (round 6): 0 = some good reading has the full length; 1 = no reading; 2 = readings,
+     none good; 3 = good readings, none of the full length.  Nothing else is ever answered. *)
+  Theorem judge_verdicts_spec : forall m name ops dc bs,
+    let v := fst (judge bucket wbucket row_of m name ops dc bs) in
+    let rs := denote2 bucket wbucket m bs in
+    (v = 0 <-> exists c, In c rs /\ good_reading m name ops dc c = true /\ reading_len c = length bs) /\
+    (v = 1 <-> rs = []) /\
+    (v = 2 <-> rs <> [] /\ forall c, In c rs -> good_reading m name ops dc c = false) /\
+    (v = 3 <-> (exists c, In c rs /\ good_reading m name ops dc c = true) /\
+               forall c, In c rs -> good_reading m name ops dc c = true -> reading_len c <> length bs).
+  Proof.
+    intros m name ops dc bs. unfold judge. cbv zeta.
+    set (rs := denote2 bucket wbucket m bs).
+    change (filter _ rs) with (filter (good_reading m name ops dc) rs).
+    match goal with |- context [existsb ?f _] => set (full := f) end.
+    assert (Hfull : forall c, full c = true <-> reading_len c = length bs).
+    { intros [[[rid dops] dd] len]. unfold full, reading_len. apply Nat.eqb_eq. }
+    destruct rs as [|c0 cs] eqn:Ers.
+    { cbn. repeat split; try discriminate; try reflexivity;
+        try (intros [c [[] _]]); try (intros [[c [[] _]] _]); try (intros [H _]; exfalso; apply H; reflexivity). }
+    destruct (filter (good_reading m name ops dc) (c0 :: cs)) as [|g gs] eqn:Eg.
+    { assert (Hno : forall c, In c (c0 :: cs) -> good_reading m name ops dc c = false).
+      { intros c Hc. destruct (good_reading m name ops dc c) eqn:E; [|reflexivity].
+        assert (In c (filter (good_reading m name ops dc) (c0 :: cs))) by (apply filter_In; auto). rewrite Eg in H. contradiction. }
+      cbn [fst]. repeat split; try discriminate; try reflexivity.
+      - intros [c [Hc [Hgd _]]]. rewrite (Hno c Hc) in Hgd. discriminate.
+      - exact Hno.
+      - intros [[c [Hc Hgd]] _]. rewrite (Hno c Hc) in Hgd. discriminate. }
+    assert (Hin : forall c, In c (g :: gs) <-> In c (c0 :: cs) /\ good_reading m name ops dc c = true).
+    { intros c. rewrite <- Eg. apply filter_In. }
+    destruct (existsb full (g :: gs)) eqn:Ex; cbn [fst].
+    - apply existsb_exists in Ex. destruct Ex as [c [Hc Hl]]. apply Hfull in Hl. apply Hin in Hc. destruct Hc as [Hc Hgd].
+      repeat split; try discriminate; try reflexivity.
+      + exists c. auto.
+      + intros [_ Hno]. rewrite (Hno c Hc) in Hgd. discriminate.
+      + intros [_ Hno]. exfalso. exact (Hno c Hc Hgd Hl).
+    - assert (Hnl : forall c, In c (c0 :: cs) -> good_reading m name ops dc c = true -> reading_len c <> length bs).
+      { intros c Hc Hgd Hl. assert (In c (g :: gs)) by (apply Hin; auto).
+        assert (existsb full (g :: gs) = true).
+        { apply existsb_exists. exists c. split; [assumption | apply Hfull; exact Hl]. }
+        rewrite Ex in H0. discriminate. }
+      repeat split; try discriminate; try reflexivity.
+      + intros [c [Hc [Hgd Hl]]]. exfalso. exact (Hnl c Hc Hgd Hl).
+      + intros [_ Hno]. assert (In g (g :: gs)) by (left; reflexivity). apply Hin in H. destruct H as [Hc Hgd]. rewrite (Hno g Hc) in Hgd. discriminate.
+      + exists g. apply Hin. left. reflexivity.
+      + exact Hnl.
   Qed.
 
   (* `other_names` lists exactly the full-length denotations whose row names a different mnemonic: when it is empty (or
